@@ -2,7 +2,8 @@
 import struct
 from fractions import Fraction
 from . import alg
-from .alg import Rat, C, fn, named, sqrt
+from .alg import Rat, C, fn, sqrt
+from .alg import named_raw as named
 
 
 # ------------------------------------------------------------------ boolean formulas
